@@ -20,6 +20,7 @@ RULE = ("every charge pattern of length <= Lp (quick 7, thorough 8) with random 
         "profile functions, default and random user groups; distinct = distinct (sequence, window); non-trivial = w <= N")
 RULE += ("; added after the mutation rounds: numpy-integer and default windows; 300-residue poly-K chains with windows 127..257; empty and repeated user groups; history salt; the first cases of every shard are judged again at its end")
 RULE += ("; round 5: user groups of 9-20 residues")
+RULE += ("; round 6: string groups that read as words")
 EXHAUSTIVE = {"quick": False, "thorough": False}
 EXHAUSTIVE_NOTE = {"quick": "all patterns of length <= 7 x all windows 1..N+3", "thorough": "all patterns of length <= 8 x all windows 1..N+3"}
 ASSUMPTIONS = [
